@@ -106,7 +106,7 @@ func (ex *Exec) pos(n ast.Node) string {
 		return ""
 	}
 	p := ex.vc.fset.Position(n.Pos())
-	return fmt.Sprintf("%s:%d", strings.TrimPrefix(p.Filename, "/repo/"), p.Line)
+	return fmt.Sprintf("%s:%d", strings.TrimPrefix(p.Filename, repoRoot+"/"), p.Line)
 }
 
 func (ex *Exec) note(a string) {
